@@ -206,6 +206,8 @@ class FloatOps (F : Type) where
   lib2 : String → F → F → F
   /-- `math.Float64bits` -/
   bits : F → UInt64
+  /-- `math.Float64frombits` -/
+  ofBits : UInt64 → F
 
 section
 variable {F : Type} [FloatOps F]
